@@ -59,7 +59,8 @@ def main():
     if props and props[0] == "--recheck":
         return recheck(props[1:])
     for arg in props:
-        prop, off = arg[:3], (2 if arg.endswith("b") else 4 if arg.endswith("c") else 6 if arg.endswith("d") else 8 if arg.endswith("e") else 10 if arg.endswith("f") else 12 if arg.endswith("g") else 14 if arg.endswith("h") else 0)
+        # <Cxx><round letter>: round a gives changes 1-2, b 3-4, ... (two changes per round)
+        prop, off = arg[:3], (2 * (ord(arg[3]) - ord("a")) if len(arg) > 3 and arg[3].isalpha() else 0)
         if arg in extra_checks:
             extra_checks[prop] = extra_checks[arg]
         for k in (1, 2):
